@@ -22,7 +22,8 @@ LEVEL = 'model_checking'
 TECHNIQUE = 'exhaustive replay of all TLC model traces on traced/untraced/plain twins (differential), label and snapshot sequence oracle from the pass log'
 RULE = ('every terminal state of SolveT.tla (full alphabet, N=3 quick / 4 thorough) x trace in {True, [A,B], "A"} x entry in '
         '{solve_t, solve_period, solve} x second solve of the same period; Alias+Tracer classes (both orders) with aliases in trace=, a class with a renamed trace attribute; parser-built catalogue x max_iter with per-pass twin. '
-        'non-trivial = traced execution that records at least one snapshot')
+        'non-trivial = traced execution that records at least one snapshot'
+        ' Variables named size/index/span/values, repeated names, a class tracing nothing, an instance-level TRACE_VARIABLES, a second traced run, the table view of each trace.')
 ASSUMPTIONS = c02.ASSUMPTIONS + [
     'a pass that raised before completing leaves no snapshot (the trace stops after the last completed pass)',
     'values compared bit-for-bit; NaN payloads as NumPy stores them',
@@ -447,8 +448,10 @@ def run_names_case(case):
         return m
 
     cls = _NM_EMPTY if case['trace'] == 'class-empty-list' else _NM_TRACED
-    arg = True if case['trace'] == 'class-empty-list' else case['trace']
+    arg = True if case['trace'] in ('class-empty-list', 'instance-list') else case['trace']
     a, b = mk(cls), mk(_NM_MODEL)
+    if case['trace'] == 'instance-list':
+        a.TRACE_VARIABLES = ['Y', 'size']   # the list of one instance: used for trace=True on that instance
     kw = dict(max_iter=4, failures='ignore')
     ra = refsolve.call_outcome(a.solve, trace=arg, **kw)
     rb = refsolve.call_outcome(b.solve, **kw)
@@ -456,7 +459,7 @@ def run_names_case(case):
     if canon(ra) != canon(rb) or any(canon(a[n]) != canon(b[n]) for n in b.index):
         out.append(('names:differential', canon(rb)[:2], canon(ra)[:2], 'tracing changed the solution (or raised) for variables named like attributes'))
         return out
-    names = [] if case['trace'] == 'class-empty-list' else (list(a.names) if arg is True else ([arg] if isinstance(arg, str) else list(arg)))
+    names = [] if case['trace'] == 'class-empty-list' else ['Y', 'size'] if case['trace'] == 'instance-list' else (list(a.names) if arg is True else ([arg] if isinstance(arg, str) else list(arg)))
     for pos in range(1, 5):
         tr = a['trace'][pos]
         k = int(a.iterations[pos])
@@ -483,11 +486,33 @@ def run_names_case(case):
         if df.shape != (len(labels), len(names)) or [str(c) for c in df.columns] != names or (names and not np.array_equal(np.asarray(df.values, dtype=float), np.asarray(vals, dtype=float).T)):
             out.append(('names:table', [len(labels), names], [list(df.shape), [str(c) for c in df.columns]], 'the table view of a trace does not have one column per traced name holding its snapshots'))
             break
+    if out:
+        return out
+    # the same periods solved (and traced) a second time: with reset=False the second run is appended, and the table view has one row
+    # per snapshot of both runs
+    first_len = {pos: len(list(a['trace'][pos].index)) for pos in range(1, 5)}
+    refsolve.call_outcome(a.solve, trace=arg, **kw)
+    for pos in range(1, 5):
+        tr = a['trace'][pos]
+        labels = list(tr.index)
+        k = int(a.iterations[pos])
+        want_second = ['start', 'before'] + list(range(0, k + 1)) + ['end']
+        if [str(x) for x in labels[first_len[pos]:]] != [str(x) for x in want_second] or len(labels) <= first_len[pos]:
+            out.append(('names:labels:second-run', want_second, labels[first_len[pos]:], 'the snapshots of a second traced run are not appended in order'))
+            break
+        try:
+            df = tr.to_dataframe()
+        except Exception as e:
+            out.append(('names:table:second-run:%s' % type(e).__name__, 'a table', repr(e)[:120], 'the table view of a trace fails after a second run'))
+            break
+        if df.shape[0] != len(labels) or [str(x) for x in df.index] != [str(x) for x in labels] or (names and not np.array_equal(np.asarray(df.values, dtype=float), np.asarray(tr.values, dtype=float).T)):
+            out.append(('names:table:second-run', len(labels), list(df.shape), 'after a second traced run the table view does not hold one row per snapshot'))
+            break
     return out
 
 
 def run_names(acc, tier):
-    for trace in (True, ['size', 'Y'], 'index', ['values', 'span', 'size'], ['Y', 'size', 'Y'], ('Y', 'Y'), 'class-empty-list'):   # (trace=[] itself is falsy: tracing off)
+    for trace in (True, ['size', 'Y'], 'index', ['values', 'span', 'size'], ['Y', 'size', 'Y'], ('Y', 'Y'), 'class-empty-list', 'instance-list'):   # (trace=[] itself is falsy: tracing off)
         case = dict(kind='names', trace=trace if not isinstance(trace, tuple) else list(trace))
         acc.evaluations += 1
         acc.nontrivial += 1
